@@ -12,6 +12,7 @@
 size_t g_k;      /* ghost byte index (never assigned) */
 size_t g_i;      /* ghost element index (never assigned) */
 size_t g_j, g_m; /* further ghost element indices (never assigned): pairwise facts, lookup witness */
+uint8_t g_mt; uint16_t g_dt;   /* TECMP: message type / data type of the frame being decoded (assigned once per Decode, by ghost code at HandlePayload entry) */
 
 /* =========================================================== memcpy with a non-constant length
  * g_k is the absolute byte index inside the DESTINATION OBJECT (buffers are whole objects, offset 0). */
@@ -25,6 +26,7 @@ __CPROVER_ensures((PRIV_ON && n > 0 && g_k >= (size_t)__CPROVER_POINTER_OFFSET(d
 /* explicit instances for the first two bytes (copies of 1..2 bytes, e.g. NUL padding) */
 __CPROVER_ensures((PRIV_ON && n >= 1) ==> ((const uint8_t *)dst)[0] == ((const uint8_t *)src)[0])
 __CPROVER_ensures((PRIV_ON && n >= 2) ==> ((const uint8_t *)dst)[1] == ((const uint8_t *)src)[1])
+__CPROVER_ensures((PRIV_ON && n >= 5) ==> ((const uint8_t *)dst)[4] == ((const uint8_t *)src)[4])      /* TECMP CAN dlc */
 {
     if (n) memcpy(dst, src, n);
     return dst;
@@ -57,6 +59,7 @@ __CPROVER_requires(__CPROVER_r_ok(o, sizeof(*o)) && o->n <= VEC_MAX && __CPROVER
 __CPROVER_ensures(__CPROVER_return_value.n == o->n)
 __CPROVER_ensures(__CPROVER_is_fresh(__CPROVER_return_value.d, o->n))
 __CPROVER_ensures(g_k < o->n ==> __CPROVER_return_value.d[g_k] == o->d[g_k])
+__CPROVER_ensures((o->n > 1 ==> __CPROVER_return_value.d[1] == o->d[1]) && (o->n > 4 ==> __CPROVER_return_value.d[4] == o->d[4]))      /* explicit instances: TECMP length bytes */
 __CPROVER_assigns()
 {
     struct vec_u8 v; v.d = (uint8_t *)malloc(o->n ? o->n : 1); v.n = o->n;
@@ -178,14 +181,22 @@ static inline struct vec_frames vec_frames_move(struct vec_frames *o)
 }
 
 /* =========================================================== std::vector<T> for class / smart-pointer elements */
+/* element-content facts of push_back: on wherever buffer contents are in scope (PRIV_ON), off in a harness whose loop havocs the vector (-DVEC_ELEMS_OFF):
+ * there the ghost flag `bad` carries what is known about the elements */
+#ifdef VEC_ELEMS_OFF
+#define VEC_ELEMS_ON 0
+#else
+#define VEC_ELEMS_ON PRIV_ON
+#endif
 #define DEFINE_VEC_MODEL(TAG, T)                                                                            \
 void TAG##_push_back(struct TAG *v, T x)                                                                    \
 __CPROVER_requires(__CPROVER_rw_ok(v, sizeof(*v)) && v->n < VEC_MAX)                                        \
-__CPROVER_ensures(v->n == __CPROVER_old(v->n) + 1)                                                          \
+__CPROVER_requires(VEC_PUSH_REQ_##TAG(x))                                                                   /* element condition of this vector type (default: none) */ \
+__CPROVER_ensures(v->n == __CPROVER_old(v->n) + 1 && v->bad == __CPROVER_old(v->bad))                       \
 __CPROVER_ensures(__CPROVER_is_fresh(v->d, v->n * sizeof(T)))                                               \
-__CPROVER_ensures((PRIV_ON && g_i < __CPROVER_old(v->n)) ==> VEC_ELEM_EQ_##TAG(v->d[g_i], (__CPROVER_old(v->d))[g_i]))   /* existing elements moved, not changed */ \
-__CPROVER_ensures((PRIV_ON && g_j < __CPROVER_old(v->n)) ==> VEC_ELEM_EQ_##TAG(v->d[g_j], (__CPROVER_old(v->d))[g_j]))   /* ... at the second ghost index too */ \
-__CPROVER_ensures(PRIV_ON ==> VEC_ELEM_EQ_##TAG(v->d[v->n - 1], x))                                        /* the new last element is x */ \
+__CPROVER_ensures((VEC_ELEMS_ON && g_i < __CPROVER_old(v->n)) ==> VEC_ELEM_EQ_##TAG(v->d[g_i], (__CPROVER_old(v->d))[g_i]))   /* existing elements moved, not changed */ \
+__CPROVER_ensures((VEC_ELEMS_ON && g_j < __CPROVER_old(v->n)) ==> VEC_ELEM_EQ_##TAG(v->d[g_j], (__CPROVER_old(v->d))[g_j]))   /* ... at the second ghost index too */ \
+__CPROVER_ensures(VEC_ELEMS_ON ==> VEC_ELEM_EQ_##TAG(v->d[v->n - 1], x))                                        /* the new last element is x */ \
 __CPROVER_assigns(v->d, v->n)                                                                               \
 {                                                                                                           \
     T *nd = (T *)malloc((v->n + 1) * sizeof(T));                                                            \
@@ -199,12 +210,14 @@ static inline struct TAG TAG##_move(struct TAG *o) { struct TAG r = *o; o->d = 0
 static inline struct TAG *TAG##_assign_move(struct TAG *v, struct TAG *o)                                   \
 { if (v != o) { *v = *o; o->d = 0; o->n = 0; } return v; }                                                   \
 struct TAG TAG##_copy(const struct TAG *o)                                                                  \
-__CPROVER_requires(__CPROVER_r_ok(o, sizeof(*o)) && o->n <= VEC_MAX && __CPROVER_r_ok(o->d, o->n * sizeof(T)))  \
-__CPROVER_ensures(__CPROVER_return_value.n == o->n)                                                         \
+__CPROVER_requires(__CPROVER_r_ok(o, sizeof(*o)) && o->n <= VEC_MAX)      /* the element buffer o->d is owned by this model: its validity is the model's own invariant */ \
+__CPROVER_ensures(__CPROVER_return_value.n == o->n && __CPROVER_return_value.bad == o->bad)                 \
 __CPROVER_ensures(__CPROVER_is_fresh(__CPROVER_return_value.d, o->n * sizeof(T)))                           \
+/* instantiation of "every element was pushed under the element condition" at the ghost index (ASSUMED: the meaning of the ghost flag `bad`) */ \
+__CPROVER_ensures((o->bad == 0 && g_i < o->n) ==> VEC_ELEM_OK_##TAG(__CPROVER_return_value.d[g_i]))         \
 __CPROVER_assigns()                                                                                         \
 {                                                                                                           \
-    struct TAG r; r.n = o->n; r.d = (T *)malloc((o->n ? o->n : 1) * sizeof(T));                              \
+    struct TAG r; r.n = o->n; r.bad = o->bad; r.d = (T *)malloc((o->n ? o->n : 1) * sizeof(T));              \
     __CPROVER_assume(r.d != 0);                                                                             \
     for (size_t i = 0; i < o->n; ++i) r.d[i] = o->d[i];                                                     \
     return r;                                                                                               \
@@ -271,8 +284,11 @@ __CPROVER_assigns()
     return SV_NPOS;
 }
 static inline void sv_remove_suffix(struct sv *s, size_t n) { s->n -= n; }
-struct sv sv_from_cstr(const char *p);          /* strlen-based; only used with the literal "" */
+static inline struct sv sv_from_cstr(const char *p) { __CPROVER_assert(p[0] == 0, "model: string_view(const char*) is only used with the literal \"\""); struct sv v; v.p = p; v.n = 0; return v; }
 static inline struct sv str_view(const struct str *s) { struct sv v; v.p = s->p; v.n = s->n; return v; }
-struct str str_from_int(int64_t v);             /* std::to_string: opaque (assumed) */
+struct str str_from_int(int64_t v)              /* std::to_string: text opaque (ASSUMED); at most 20 characters */
+__CPROVER_ensures(__CPROVER_return_value.n >= 1 && __CPROVER_return_value.n <= 20 && __CPROVER_is_fresh(__CPROVER_return_value.p, __CPROVER_return_value.n))
+__CPROVER_assigns()
+;
 
 #endif
